@@ -86,7 +86,7 @@ def reference_encoding(table, v, host_big):
 def run(tier, seed, rng):
     import sys
     host_big = sys.byteorder == 'big'
-    ng = 70 if tier == 'quick' else 600
+    ng = 70 if tier == 'quick' else 2000
     feats = lambda g: dict(regex=False, eos=False, codegen_opts=(g % 3 == 0), move=(g % 2 == 0), move_rate=0.4, refsel=(g % 4 != 3))
     groups = pktprops.make_groups(rng, ng, feats, values_per_class=4 if tier == 'quick' else 8, offsets=(), maxcuts=0, flips=0, defaults=False)
     for G in groups:
